@@ -39,6 +39,9 @@ def run(ctx):
     n4 = R.fmt_round(rep, F, E)
     rep.floor('Context/RoundingMode Default impls', n1, 2)
     rep.floor('default-context operation sinks', n2, 10)
+    from props import roots
+    nkg = roots.kernel_gates(rep, F, r'.')
+    rep.floor('kernel gateways (implicit-default wrappers cannot bypass the explicit-context entry points)', nkg, 4)
     rep.floor('Display rule instances', n3, 6)
     rep.floor('functions reachable from Display', nd, 25)
     rep.floor('formatting rounding sinks', n4, 2)
